@@ -10,8 +10,9 @@ Binding: (a) the three attribute tables of the transcription are extracted from 
 `extract`), (b) every case TLC enumerates is exported (PrintT BEH), concretised (once exactly as the model's
 abstract statement -> the model's predicted text is compared strictly = drift check; once more with seeded values
 that are empty / long / contain braces / percent signs) and run through the real PatternFormatter, message cases
-end to end through frontend + queue + ManualBackendWorker into a recording sink, plus seeded random larger
-patterns, (c) every recorded execution is judged by TLC against the contract on strings (TracePattern).
+end to end through frontend + queue + ManualBackendWorker into recording sinks (one plain sink, and loggers with
+2-3 sinks in every order of {plain, override pattern A, override pattern B}: one judged execution per sink, against
+that sink's effective pattern), plus seeded random larger patterns, (c) every recorded execution is judged by TLC against the contract on strings (TracePattern).
 The verdict comes only from (c)."""
 import hashlib, itertools, json, os, random, re, time
 from concurrent.futures import ThreadPoolExecutor
@@ -172,6 +173,8 @@ def e_line(c):
         f += ["tmpl=" + hx(e["tmpl"]), "nvn=%d" % len(e["nv"]), "nv=" + ",".join(hx(v) for v in e["nv"])]
     if e["kind"] == "rt":
         f += ["file=" + hx(e["file"]), "line=%d" % e["line"], "func=" + hx(e["func"])]
+    if e.get("sinks"):
+        f.append("sinks=" + ",".join("-" if s is None else hx(s) for s in e["sinks"]))
     return " ".join(f)
 
 
@@ -260,15 +263,43 @@ def run_cases(exe, cases, rng, timeout):
     return deaths
 
 
-def trace_line(c):
+def trace_lines(c):
+    """the executions of one case as the contract sees them: one line per sink for an end-to-end case (the pattern of
+    the line is the sink's EFFECTIVE pattern: the logger's, or the sink's override pattern)"""
     g = c["got"]
     if c["op"] == "fmt":
         if g is None:
-            return {"op": "fmt", "id": c["id"], "pattern": c["pattern"], "b": c["b"], "res": "missing", "out": ""}
-        return {"op": "fmt", "id": c["id"], "pattern": c["pattern"], "b": c["b"], "res": g["res"], "out": g["out"]}
-    outs = ["<no output: the harness died in this case>"] if g is None else g["outs"]
-    return {"op": "e2e", "id": c["id"], "pattern": c["pattern"], "b": c["b"], "multi": bool(c["multi"]),
-            "named": c["e"]["kind"] == "named", "outs": outs}
+            return [{"op": "fmt", "id": c["id"], "pattern": c["pattern"], "b": c["b"], "res": "missing", "out": ""}]
+        return [{"op": "fmt", "id": c["id"], "pattern": c["pattern"], "b": c["b"], "res": g["res"], "out": g["out"]}]
+    dead = ["<no output: the harness died in this case>"]
+    base = {"op": "e2e", "id": c["id"], "b": c["b"], "multi": bool(c["multi"]), "named": c["e"]["kind"] == "named"}
+    sinks = c["e"].get("sinks")
+    if not sinks:
+        return [dict(base, pattern=c["pattern"], outs=dead if g is None else g["outs"])]
+    out = []
+    for k, sp in enumerate(sinks):
+        so = dead if g is None or len(g.get("souts", [])) <= k else g["souts"][k]
+        out.append(dict(base, pattern=c["pattern"] if sp is None else sp, outs=so, sink=k))
+    return out
+
+
+def judge_cases(ck, cases, label="TracePattern"):
+    """all executions of the cases through the contract; returns (rejected case indexes, out-of-domain case indexes)
+    and records in c['bad_lines'] which of a case's lines were rejected"""
+    lines, owner = [], []
+    for i, c in enumerate(cases):
+        for ln in trace_lines(c):
+            lines.append(ln)
+            owner.append(i)
+    bad_l, nodom_l = validate(ck, lines, label=label)
+    bad, dom = set(), set()
+    for j, i in enumerate(owner):
+        if j in bad_l:
+            bad.add(i)
+            cases[i].setdefault("bad_lines", []).append(lines[j].get("sink", 0))
+        if j not in nodom_l:
+            dom.add(i)
+    return bad, set(range(len(cases))) - dom, len(lines)
 
 
 _re_state3 = re.compile(r"State 3: [^\n]*\n((?:/\\ [^\n]*\n)+)")
@@ -346,6 +377,11 @@ def signature(c):
     m = c["e"]["full"]
     nl = re.sub(r"[^\n]+", "c", m).replace("\n", "n")
     n = -1 if g is None else len(g["outs"])
+    sinks = c["e"].get("sinks")
+    if sinks:
+        arr = "".join("P" if s is None else "O" for s in sinks)
+        return "e2e-sinks:%s:multi=%d:msg=%s:sinks=%s:rejected-sink=%s" % (
+            c["e"]["kind"], 1 if c["multi"] else 0, nl[:24], arr, ",".join(str(k) for k in sorted(set(c.get("bad_lines", [])))))
     return "e2e:%s:multi=%d:msg=%s:lines=%d:%s" % (c["e"]["kind"], 1 if c["multi"] else 0, nl[:24], n, shape(c["pattern"]))
 
 
@@ -457,6 +493,46 @@ def cases_from_message_beh(behs, rng, origin):
                     pieces = ["".join(p) for p in (b["split"] if multi else [b["single"]])]
                 out.append({"op": "e2e", "pattern": pat, "multi": multi, "e": e, "origin": origin,
                             "pieces_shape": pieces, "cls": "valid"})
+    return out
+
+
+SINK_ARRANGEMENTS = [a for n in (2, 3) for a in itertools.permutations(("P", "A", "B"), n)] + \
+    [("A", "P", "P"), ("P", "A", "P"), ("A", "A", "P"), ("A", "B", "A")]
+
+
+def valid_pattern(rng, prefix):
+    while True:
+        pat, cls = rnd_pattern(rng)
+        if cls == "valid" and len(pat) < 200:
+            return prefix + pat
+
+
+def cases_multi_sink(behs, rng, per_arrangement, origin="multi_sink"):
+    """one logger with 2-3 recording sinks in every order of {plain, override(pattern A), override(pattern B)}; statements
+    pass all sinks; multi-line messages (every newline arrangement TLC enumerated, sampled) in both modes"""
+    msgs = [[]] + sorted({tuple(b["msg"]) for b in behs})
+    out = []
+    for arr in SINK_ARRANGEMENTS:
+        for shape_ in ([msgs[0]] + rng.sample(msgs[1:], min(per_arrangement, len(msgs) - 1)) if per_arrangement < len(msgs) else msgs):
+            for multi in (True, False):
+                kinds = ["plain", rng.choice(["rt", "named"])] if per_arrangement < len(msgs) else ["plain", "rt", "named"]
+                for kind in kinds:
+                    alphabet = MSG_CHARS_PLAIN if kind == "named" else MSG_CHARS_ANY
+                    msg = "".join("\n" if s == "\n" else rng.choice(alphabet) for s in shape_)
+                    ov = {"A": valid_pattern(rng, "A|"), "B": valid_pattern(rng, "B>")}
+                    e = {"kind": kind, "logger": (rnd_value(rng)[:40] or "lg"), "level": rng.randint(3, 8),
+                         "ts": rng.randrange(10**18, 19 * 10**17), "src": rnd_src(rng), "fn": rnd_value(rng)[:64],
+                         "tags": None if rng.random() < 0.5 else rng.choice(["#t ", "{}", "%"]), "msg": msg,
+                         "full": msg, "pairs": [], "sinks": [None if k == "P" else ov[k] for k in arr]}
+                    if kind == "named":
+                        v1 = rng.choice(["", "v", "7", "a b"])
+                        e["tmpl"], e["nv"], e["full"], e["pairs"] = "{alpha}" + msg, [v1], v1 + msg, [["alpha", v1]]
+                    if kind == "rt":
+                        e["file"] = rnd_src(rng).rsplit(":", 1)[0]
+                        e["line"] = rng.choice([1, 42, 65535])
+                        e["func"] = rnd_value(rng)[:64]
+                    out.append({"op": "e2e", "pattern": valid_pattern(rng, "L="), "multi": multi, "e": e, "origin": origin,
+                                "cls": "valid", "pieces_shape": None})
     return out
 
 
@@ -575,6 +651,7 @@ def run(ck):
         "%(time): timestamp pattern %H:%M:%S.%Qns (or %S), GMT, instants in 2001..2030, expected text computed independently from the instant; the time format itself is C13's subject",
         "message text end to end is printable ASCII plus newline (anything else is rewritten by check_printable_char) and does not contain the runtime-metadata separator \\x01\\x02\\x03",
         "values are ASCII (fmt measures width in code points / display columns; not explored)",
+        "loggers with several sinks: each sink is judged against its effective pattern (the sink's override_pattern_formatter_options pattern if it has one, else the logger's); an override sink's add_metadata_to_multi_line_logs is set equal to the logger's (the code takes the split decision from the logger's options; a sink option that differs is outside the inputs), same timestamp pattern/zone",
         "end to end the thread id, process id come from the harness process (gettid/getpid), the thread name is set by the harness before the first statement (<= 15 characters), level names/short codes are set through BackendOptions",
     ]
     exe = build_harness()
@@ -609,7 +686,7 @@ def run(ck):
         runs.append(("MC_slots6", pattern_cfg("C12_MC_slots6", "pattern", NAMES, subsets, max_items=6, lits=(), specs=()), {}, False))
         runs.append(("MC_all16_3", pattern_cfg("C12_MC_all16_3", "pattern", NAMES, max_items=3, specs=(1,), unk=True), {}, False))
     runs.append(("MC_message", pattern_cfg("C12_MC_message", "message", NAMES, max_msg=5 if quick else 7, export=True,
-                                           invs=("LinesOK", "SplitExact")), COV, True))
+                                           invs=("LinesOK", "SplitExact", "SinksOK")), COV, True))
     runs.append(("MC_source", pattern_cfg("C12_MC_source", "source", NAMES, max_src=6 if quick else 8, export=True,
                                           invs=("MetaOK",)), COV, True))
     # random walks to deep patterns (up to 20 items, all sixteen attributes in one pattern: the last slot is in use)
@@ -684,6 +761,7 @@ def run(ck):
     for label, bs in behs.items():
         if label == "MC_message":
             cases += cases_from_message_beh(bs, rng, label)
+            cases += cases_multi_sink(bs, rng, 12 if quick else 10**6)
         elif label == "MC_source":
             cases += cases_from_source_beh(bs, ab, rng, label)
         else:
@@ -713,7 +791,8 @@ def run(ck):
         cases = [c for c in cases if not c["skipped"]]
     vlib.log(f"[C12] harness {time.time() - t0:.1f}s")
     t0 = time.time()
-    bad, nodom = validate(ck, [trace_line(c) for c in cases])
+    bad, nodom, nlines = judge_cases(ck, cases)
+    ck.extra["executions_judged_lines"] = nlines        # one per (statement, sink)
     vlib.log(f"[C12] contract validation {time.time() - t0:.1f}s, rejected {len(bad)}, outside domain {len(nodom)}")
     judged = 0
     for i, c in enumerate(cases):
@@ -737,10 +816,10 @@ def run(ck):
             continue
         seen.add(sig0)
         c2 = _rerun_with_header(exe, c, c["hdr"])    # same process-wide settings as in the first run
-        b2, _ = validate(ck, [trace_line(c2)], label=None)
+        b2, _, _ = judge_cases(ck, [c2], label=None)
         if b2:
             sig = signature(c2)
-            ck.violation(sig, _describe(c2), {"case": _replayable(c2), "trace_line": trace_line(c2),
+            ck.violation(sig, _describe(c2), {"case": _replayable(c2), "trace_lines": trace_lines(c2),
                                              "harness": "h_fmt_pattern", "signature": sig})
         else:
             ck.drifted(f"rejection of case {c['id']} ({sig0}) did not repeat in isolation")
@@ -794,7 +873,7 @@ def _count(cases, k):
 
 
 def _samples(ck, cases):
-    want = ["MC_parse", "MC_slots", "MC_message", "Sim_deep", "random"]
+    want = ["MC_parse", "MC_slots", "MC_message", "multi_sink", "Sim_deep", "random"]
     for w in want:
         best = None
         for c in cases:
@@ -811,6 +890,8 @@ def _samples(ck, cases):
                 s["out"] = g["out"][:300]
             else:
                 s.update({"message": c["e"]["msg"], "multi": c["multi"], "kind": c["e"]["kind"], "outs": [o[:160] for o in g["outs"][:6]]})
+                if c["e"].get("sinks"):
+                    s.update({"sinks": c["e"]["sinks"], "per_sink": [[o[:120] for o in so[:4]] for so in g.get("souts", [])]})
             ck.sample(s)
 
 
@@ -818,6 +899,9 @@ def _describe(c):
     g = c.get("got")
     if c["op"] == "fmt":
         return "pattern %r with values %s: code gives %s" % (c["pattern"], json.dumps(c["b"])[:600], json.dumps(g)[:600])
+    if c["e"].get("sinks"):
+        return "logger pattern %r, sinks (None = plain, else override pattern) %r, message %r, multi=%s, kind=%s: sinks %s rejected; received %s" % (
+            c["pattern"], c["e"]["sinks"], c["e"]["full"], c["multi"], c["e"]["kind"], sorted(set(c.get("bad_lines", []))), json.dumps(g)[:900])
     return "pattern %r, message %r, multi=%s, kind=%s: sink received %s" % (
         c["pattern"], c["e"]["full"], c["multi"], c["e"]["kind"], json.dumps(g)[:800])
 
@@ -827,7 +911,7 @@ def _replayable(c):
 
 
 def _rerun_with_header(exe, c, hdr):
-    c2 = {k: v for k, v in c.items() if k != "got"}
+    c2 = {k: v for k, v in c.items() if k not in ("got", "bad_lines")}
     d = vlib.scratch("c12r")
     try:
         inp, outp = d / "cases.txt", d / "out.ndjson"
@@ -854,11 +938,11 @@ def replay(ck, path):
     exe = build_harness()
     c = j["case"]
     c2 = _rerun_with_header(exe, c, c.get("hdr") or shard_header(random.Random(1)))
-    ln = trace_line(c2)
-    print(json.dumps(ln))
-    bad, nodom = validate(ck, [ln], label="TracePattern(replay)")
+    for ln in trace_lines(c2):
+        print(json.dumps(ln))
+    bad, nodom, _ = judge_cases(ck, [c2], label="TracePattern(replay)")
     if bad:
         sig = signature(c2)
-        ck.violation(sig, _describe(c2), {"case": _replayable(c2), "trace_line": ln, "harness": "h_fmt_pattern", "signature": sig})
+        ck.violation(sig, _describe(c2), {"case": _replayable(c2), "trace_lines": trace_lines(c2), "harness": "h_fmt_pattern", "signature": sig})
     else:
         ck.traces_validated += 1
